@@ -209,6 +209,10 @@ def _pair_classes(item):
         # further fields overridden with the identical type, before and after `f` in declaration order
         pf = {"a0": Int, f: G.hint(tp, e), "z9": Int}
         cf = {"a0": Int, f: G.hint(tc, e), "z9": Int}
+    elif variant == "decl":
+        # another field (sorting before `f`) is overridden WITH an explicit declaration; `f` is not declared
+        pf = {"A0": Int, f: G.hint(tp, e)}
+        cf = {"A0": Int, f: G.hint(tc, e)}
     else:
         pf = {f: G.hint(tp, e)}
         cf = {f: G.hint(tc, e)}
@@ -219,8 +223,13 @@ def _pair_classes(item):
         if variant == "via":
             base = G.make_class(e, {}, base=P, prefix="BM")
         C = G.make_class(e, cf, base=base, prefix="BC")
-        if with_override:
+        if variant == "decl":
+            C = G.override("A0", f)(C) if with_override else G.override("A0")(C)
+        elif with_override:
             C = G.override(f)(C)
+        if variant == "mid":
+            # the override sits in an intermediate class; the class that is checked is a leaf that does not touch `f`
+            C = G.make_class(e, {}, base=C, prefix="BL")
         return C
 
     return P, child, tp, tc
@@ -234,6 +243,8 @@ def _pair_inputs(item, tp, tc):
         a = {f: v}
         if item.get("variant") == "multi":
             a.update({"a0": 0, "z9": 0})
+        if item.get("variant") == "decl":
+            a.update({"A0": 0})
         yield a
 
 
@@ -438,7 +449,7 @@ def run(tier, seed):
         types, atoms = pair_types(tier)
         items = [{"tp": a, "tc": b, "variant": "single"} for a in types for b in types]
         sub = atoms if q else G.enumerate_types(2, atoms=atoms, union_atoms=CORE)
-        for variant in ("multi", "via"):
+        for variant in ("multi", "via", "mid", "decl"):
             items += [{"tp": a, "tc": b, "variant": variant} for a in sub for b in sub]
         res = pool.map("run_pair", items, chunk=64, item_deadline=60)
         outcomes = {}
@@ -561,7 +572,8 @@ def run(tier, seed):
             + ("the core atoms " + " ".join(CORE) if q else "distinct atoms")
             + "; EVERY ordered pair (TP,TC) of these types -> class P: f: TP, class C(P): f: TC, schemas.check_plugin(C); accepted pairs x the union of both "
             "field corpora (child accepts => parent must parse the child's bytes); refused pairs re-checked with @override. Variants 'multi' (two more "
-            "identically-typed overridden fields around f) and 'via' (override through an intermediate class) over "
+            "identically-typed overridden fields around f), 'via' (override through an empty intermediate class), 'mid' (the override sits in an intermediate class, "
+            "the checked class is a leaf below it) and 'decl' (another field sorting before f carries an explicit @override) over "
             + ("all atom pairs" if q else "all pairs of depth<=2 types with core unions")
             + ". Extra policy: parent extra x child extra(inherit|allow|ignore|forbid) x new field via annotation(optional|required) | "
             "add_const_fields | @ld new | @ld override x chain length 1|2 x parent constants none|ld. Part A: 3-level generated chains "
